@@ -124,6 +124,15 @@ def families(prop, tier):
                 fams.append(dict(name='fastrelay-dict', mode='dfs', depth=8 if q else 10, budget=300 if q else 20000,
                                  cfg=dict(backend='dict', gate_store=False, nmsgs=4, nrcpt=1, backoff=[5, 0, None], store_pool=sp, flush=1,
                                           fast_relay=script, outcomes=['ok'])))
+    if prop in ('C12',):
+        # flush() while the scheduler is in the middle of a dispatch pass that waits for a store-pool slot, then a new arrival
+        pre = ['enq', 'enq', 'enq', 'relay:T1', 'relay:T1', 'relay:T1', 'adv']
+        plans = [pre + tail for tail in (['flush', 'announce_new', 'get', 'get', 'get', 'get'], ['flush', 'get', 'announce_new', 'get', 'get'],
+                                         ['announce_new', 'flush', 'get', 'get', 'get'], ['get', 'flush', 'announce_new', 'get', 'get'],
+                                         ['flush', 'announce_new', 'get', 'relay:ok', 'get', 'relay:ok', 'get'])]
+        fams.append(dict(name='flushrace-gdict', mode='plans', plans=plans,
+                         cfg=dict(backend='gdict', gate_store=True, gate_ops=['get'], announce=True, announce_new=True, store_pool=2, flush=1,
+                                  nmsgs=3, nrcpt=1, backoff=[5, None], outcomes=['ok', 'T1'])))
     if prop in ('C12', 'C01'):
         fams.append(dict(name='pools-dict', mode='dfs', depth=8 if q else 10, budget=600 if q else 40000,
                          cfg=dict(backend='dict', gate_store=False, nmsgs=3, nrcpt=1, backoff=[0, 2, None], store_pool=1, relay_pool=1,
@@ -178,7 +187,8 @@ def main():
         if fam['mode'] == 'plans':
             for pi, plan in enumerate(fam['plans']):
                 if pi % 8 == sub:
-                    qdrv.run_plan(cfg, make, ['enq'] + [x for x in plan if x != 'enq'], on_trace=on_trace)
+                    qdrv.run_plan(cfg, make, (['enq'] + [x for x in plan if x != 'enq']) if fam['name'].startswith('splitplan') else list(plan),
+                                  on_trace=on_trace)
         elif fam['mode'] == 'dfs':
             cfg['force_prefix'] = sub
             qdrv.dfs(cfg, make, fam['depth'], max(1, fam['budget'] // 12), on_trace=on_trace,
